@@ -12,6 +12,7 @@ import (
 	"sync/atomic"
 
 	"github.com/ErdemOzgen/blackdagger/internal/logger"
+	"github.com/ErdemOzgen/blackdagger/internal/verifhook"
 )
 
 var ErrServerRequestedShutdown = errors.New(
@@ -61,6 +62,7 @@ func (srv *Server) Serve(listen chan error) error {
 	srv.logger.Debug("Unix socket is listening", "addr", srv.addr)
 
 	defer func() {
+		verifhook.Point("sock.serve.exiting", srv.addr)
 		// Closing the listener unlinks the socket file. The path must not be
 		// removed again from here: this goroutine may get to run after
 		// Shutdown has returned to its caller, when the next run of the DAG
